@@ -70,12 +70,82 @@ def r1(ctx: Ctx) -> None:
                 ctx.check(ok, f, l.node, "kept prefix is prices[: regeneration point + 1], followed by the newly generated values", "self.prices[m] = self.prices[m][: _generated_until + 1] + new", short(v)[:200])
     ctx.require(n >= 2, f"{GN}: both length branches expected")
     # lookups regenerate until the requested time is covered, and only then read
-    for q, cond in (("Fundamentals.get_fundamental_price", "time"), ("Fundamentals.get_fundamental_prices", "max")):
+    for q, plural in (("Fundamentals.get_fundamental_price", False), ("Fundamentals.get_fundamental_prices", True)):
         g = ctx.func(q)
         for p in normal_paths(ctx.paths(q)):
             wl = [l for l in loops(p) if l.loopkind == "while"]
             ok = len(wl) == 1 and any(any(e.name == "_generate_next" for e in calls(bp)) for bp in wl[0].paths)
             ctx.check(ok, g, g.node, f"{q} generates until the requested time is covered", "while requested >= _generated_until: _generate_next()", f"{len(wl)} loop(s)")
+            if ok:
+                _lookup_guard(ctx, g, wl[0], plural)
+
+
+def _requested(t: Term, plural: bool) -> bool:
+    from ..terms import normalise
+
+    t = normalise(strip_ver(t))
+    if not plural:
+        return t == ("sym", "time")
+    if not (_is_call(t, "max") and len(t[2]) == 1):
+        return False
+    a = t[2][0]
+    if a[0] == "comp" and len(a[3]) == 1 and not a[3][0][2] and len(a[3][0][0]) == 1 and a[2] == ("bound", a[3][0][0][0]):
+        a = a[3][0][1]
+    return a == ("sym", "times")
+
+
+def _lookup_guard(ctx: Ctx, g, l: Event, plural: bool) -> None:
+    """the read is reached only once requested < regeneration point (values beyond it are provisional)"""
+    from ..kit import nf_cmp
+    from ..terms import Unrecognised, cmp_nf
+
+    body = [bp for bp in l.paths if any(e.name == "_generate_next" for e in calls(bp))]
+    for bp in body:
+        if len(bp.conds) != 1:
+            ctx.unrec(g, l.node, "regeneration loop has a single test", "while <requested> >= _generated_until", bp.describe()[:160])
+            continue
+        c, pol, _ = bp.conds[0]
+        c = strip_ver(c)
+        if not pol:
+            c = ("not", c)
+        from ..terms import canon_pred
+
+        cc, cpol = canon_pred(c)
+        sides = [cc[2], cc[3]] if cc[0] == "cmp" else []
+        req = [x for x in sides if _requested(x, plural)]
+        if len(req) != 1:
+            ctx.unrec(g, l.node, "regeneration loop compares the requested time with the regeneration point", "requested >= _generated_until", short(c)[:160])
+            continue
+        other = sides[1] if sides[0] is req[0] else sides[0]
+        try:
+            got = nf_cmp(c, integer=True)
+        except Unrecognised:
+            ctx.unrec(g, l.node, "regeneration loop test", "requested >= _generated_until", short(c)[:160])
+            continue
+        if other == G:
+            # continue while G <= requested; stopping earlier (G - 1 <= requested) regenerates more and is harmless
+            ok = got in (cmp_nf("<=", G, req[0], integer=True), cmp_nf("<=", ("bin", "-", G, ("const", 1)), req[0], integer=True))
+            ctx.check(ok, g, l.node, "values are read only below the regeneration point", "keep generating while requested >= _generated_until", short(c)[:160])
+        elif _is_call(other, "len") and "prices" in key(other):
+            # alternative design: the series itself is cut back at every change; then every mover of the
+            # regeneration point has to discard the provisional tail as well
+            ok_all = True
+            for w in ctx.cg.writers_of("Fundamentals", "_generated_until"):
+                wf = w.func
+                if wf.qualname in (GN, "Fundamentals.__init__") or wf.name == "__init__":
+                    continue
+                for wp in normal_paths(ctx.paths(wf.qualname)):
+                    if not [e for e in wp.walk_events(True) if e.kind == "store" and e.attr == "_generated_until"]:
+                        continue
+                    cut = [e for e in wp.walk_events(True) if (e.kind == "del" and e.index is not None and strip_ver(e.index)[0] == "slice") or
+                           (e.kind == "store" and e.attr is None and "prices" in key(strip_ver(e.base)) and any(x[0] == "slice" for x in subterms(strip_ver(e.value))))]
+                    if not cut:
+                        ok_all = False
+                        ctx.violated(wf, w.node, "lookups decide by the length of the series, so whoever moves the regeneration point must cut the provisional tail", "del prices[t + 1:] alongside _generated_until = t", f"{wf.qualname} moves the point and keeps the old tail: stale values are served after the change")
+            if ok_all:
+                ctx.holds(g, l.node, "lookups decide by series length and every mover of the regeneration point cuts the tail", "tail cut at every change", short(c)[:120])
+        else:
+            ctx.unrec(g, l.node, "regeneration loop compares the requested time with the regeneration point", "requested >= _generated_until", short(c)[:160])
 
 
 @rule("C12.R2", "every parameter change moves the regeneration point to the time of the change on every path", "T4 all normal paths", floor=5)
@@ -166,6 +236,99 @@ def r4(ctx: Ctx) -> None:
         ctx.check(not bad, g, g.node, "a negative volatility cannot be configured later either", "volatility < 0.0 -> raise", f"{len(bad)} unguarded path(s)")
 
 
+def _drift_source(t: Term) -> List[Term]:
+    """the id sequences over which `self.drifts[x]` is collected inside t (outermost generator that binds x)"""
+    out: List[Term] = []
+
+    def walk(u: Term, gens: tuple) -> None:
+        if u[0] == "comp":
+            g2 = gens + tuple(u[3])
+            if u[2][0] == "sub" and key(u[2][1]) == "self.drifts" and u[2][2][0] == "bound":
+                for names, it, conds in g2:
+                    if u[2][2][1] in names:
+                        if it not in out:
+                            out.append(it)
+                        if conds:
+                            out.append(("filtered",))
+            for ch in (u[2],) + tuple(x for g in u[3] for x in (g[1],) + tuple(g[2])):
+                walk(ch, g2)
+            return
+        for ch in u[1:] if isinstance(u, tuple) else ():
+            if isinstance(ch, tuple) and ch and isinstance(ch[0], str):
+                walk(ch, gens)
+            elif isinstance(ch, tuple):
+                for x in ch:
+                    if isinstance(x, tuple) and x and isinstance(x[0], str):
+                        walk(x, gens)
+                    elif isinstance(x, tuple) and len(x) == 2 and isinstance(x[1], tuple):
+                        walk(x[1], gens)
+
+    walk(t, ())
+    return out
+
+
+def _plain_vector(t: Term) -> bool:
+    """t is reshape/asarray/.T wrapped around one comprehension -- no slicing or reindexing in between"""
+    while True:
+        if t[0] == "call" and _is_call(t, "reshape") and t[1][0] == "attr":
+            t = t[1][1]
+        elif t[0] == "attr" and t[2] == "T":
+            t = t[1]
+        elif t[0] == "call" and _is_call(t, "asarray") and t[2]:
+            t = t[2][0]
+        else:
+            break
+    return t[0] == "comp"
+
+
+@rule("C12.R6", "chunk planning: a chunk never runs past the next market start, and exactly the markets that started before the chunk's end are regenerated", "T7 selection predicates", floor=4)
+def r6(ctx: Ctx) -> None:
+    from ..kit import nf_cmp
+    from ..terms import Unrecognised, cmp_nf, normalise
+
+    f = ctx.func(GN)
+    for p in normal_paths(ctx.paths(GN)):
+        gen = [e for e in calls(p, into_loops=False) if e.name == "_generate_log_return"]
+        ctx.require(len(gen) == 1, f"{GN}: exactly one call of _generate_log_return expected")
+        length = normalise(strip_ver(kw(gen[0], "length", 1) or NONE))
+        T = normalise(strip_ver(kw(gen[0], "generate_target_ids", 0) or NONE))
+        shape = T[0] == "comp" and T[1] == "seq" and len(T[3]) == 1 and len(T[3][0][0]) == 2 and T[2] == ("bound", T[3][0][0][0]) and key(T[3][0][1]) == "self.start_at.items()" and len(T[3][0][2]) == 1
+        if not shape:
+            ctx.unrec(f, gen[0].node, "regenerated markets are selected from the start table", "[m for m, start in self.start_at.items() if start < _generated_until + length]", short(T)[:200])
+            continue
+        v = ("bound", T[3][0][0][1])
+        try:
+            got = nf_cmp(T[3][0][2][0], integer=True)
+            want = cmp_nf("<", v, ("bin", "+", G, length), integer=True)
+        except Unrecognised:
+            ctx.unrec(f, gen[0].node, "selection predicate of regenerated markets", "start < _generated_until + length", short(T[3][0][2][0])[:160])
+            continue
+        ctx.check(got == want, f, gen[0].node, "a market is regenerated in a chunk exactly when it started before the chunk's end (until its start it keeps the configured initial value)", "start < _generated_until + length", short(T[3][0][2][0])[:160])
+        # length: up to the next start strictly beyond the regeneration point
+        pts = [t for t in subterms(length) if _is_call(t, "min")]
+        if pts:
+            P = pts[0][2][0] if pts[0][2] else NONE
+            okp = P[0] == "comp" and P[1] == "seq" and len(P[3]) == 1 and len(P[3][0][0]) == 1 and P[2] == ("bound", P[3][0][0][0]) and key(P[3][0][1]) == "self.start_at.values()" and len(P[3][0][2]) == 1
+            if not okp:
+                ctx.unrec(f, gen[0].node, "next change point is the earliest market start beyond the regeneration point", "min(x for x in self.start_at.values() if x > _generated_until)", short(P)[:160])
+                continue
+            try:
+                okc = nf_cmp(P[3][0][2][0], integer=True) == cmp_nf("<", G, P[2], integer=True)
+            except Unrecognised:
+                okc = False
+            okl = poly_of(length) == poly_of(("bin", "-", pts[0], G))
+            ctx.check(okc and okl, f, gen[0].node, "a chunk ends at the next market start", "length = min(start for start in start_at.values() if start > _generated_until) - _generated_until", short(length)[:200])
+            # this branch is taken exactly when there is such a start
+            dec = [pol for c, pol, _ in p.conds if P in list(subterms(normalise(strip_ver(c))))]
+            ctx.check(bool(dec), f, gen[0].node, "the short chunk is used only when a later market start exists", "decision on the change points being non-empty", p.describe()[:120])
+        else:
+            from ..kit import nonempty_decision
+
+            ok = length[0] == "attr" and length[1] == ("sym", "self")
+            pend = [c for c, pol, _ in p.conds]
+            ctx.check(ok and bool(pend), f, gen[0].node, "without a later market start the configured chunk size is generated", "length = self._generate_chunk_size when no start lies ahead", short(length)[:120])
+
+
 @rule("C12.R5", "return transform: covariance = vol x corr x vol with a symmetric correlation matrix, lower Cholesky factor applied from the left to standard normals, drift added per market, zero-volatility markets get pure drift, rows restacked in the requested order", "T7 factor structure (necessary condition)", floor=6)
 def r5(ctx: Ctx) -> None:
     f = ctx.func(GL)
@@ -243,8 +406,12 @@ def r5(ctx: Ctx) -> None:
                 ok = bool(adds)
                 if ok:
                     other = adds[0][3] if adds[0][2] == dots[0] else adds[0][2]
-                    ok = _is_call(other, "reshape") and other[2] == (("const", -1), ("const", 1)) and "self.drifts" in key(other) and cid in list(subterms(other))
-                ctx.check(ok, f, f.node, "each volatile market's drift is added to its own row", "+ drifts.reshape(-1, 1)", short(adds[0])[:160] if adds else "no drift term")
+                    ok = _is_call(other, "reshape") and other[2] == (("const", -1), ("const", 1)) and _drift_source(other) == [cid]
+                    if ok and not _plain_vector(other):
+                        ctx.unrec(f, f.node, "drift column is the plain vector of the volatile markets' drifts", "np.asarray([self.drifts[x] for x in volatile]).reshape(-1, 1)", short(other)[:200])
+                        ok = None
+                if ok is not None:
+                    ctx.check(ok, f, f.node, "each volatile market's drift is added to its own row", "+ np.asarray([self.drifts[x] for x in volatile ids]).reshape(-1, 1)", short(other if adds else NONE)[:200] if adds else "no drift term")
         # restacking
         ret = ret_n
         ok = _is_call(ret, "stack") and ret[2] and ret[2][0][0] == "comp"
@@ -257,5 +424,5 @@ def r5(ctx: Ctx) -> None:
             if ok:
                 yes, no = elt[2], elt[3]
                 ok = yes[0] == "sub" and _is_call(yes[2], "index") and yes[2][1][1] == cid and yes[2][2][0] == b and no[0] == "sub" and _is_call(no[2], "index") and no[2][1][1] == other_ids[0] and no[2][2][0] == b
-                ok = ok and "self.drifts" in key(no[1]) and "standard_normal" not in key(no[1])
+                ok = ok and _drift_source(no[1]) == [other_ids[0]] and "standard_normal" not in key(no[1])
         ctx.check(ok, f, f.node, "rows are returned in the requested market order; zero-volatility markets get their drift and no noise", "np.stack([chol_row[idx(x)] if x in volatile else drift_row[idx(x)] for x in ids])", short(ret)[:80])
